@@ -37,7 +37,9 @@ mod __verif_native_fs {
     const GAMES: [Game; 5] = [Game::FE9, Game::FE10, Game::FE13, Game::FE14, Game::FE15];
 
     fn check_localize() {
-        let paths = ["m/GameData.bin.lz", "m/", "m", "a/b/c.bin", "a b/c d.bin", " m/x", "m /x", "m/ x ", " a / b /c", "dir.with.dots/@file", "a/b/", "x/y/z/w/f.e", "Mess/common.m", "日本/語.bin", "a/.hidden", "a/b.c.d"];
+        let paths = ["m/GameData.bin.lz", "m/", "m", "a/b/c.bin", "a b/c d.bin", " m/x", "m /x", "m/ x ", " a / b /c", "dir.with.dots/@file", "a/b/", "x/y/z/w/f.e", "Mess/common.m", "日本/語.bin", "a/.hidden", "a/b.c.d",
+            // a backslash is an ordinary character of a component here: the directory part must come back intact
+            "snd\\bgm/track.bin", "a\\b\\c/d.bin", "x/y\\z/w.bin"];
         for game in GAMES { for lang in LANGS { for p in paths {
             let show = || format!("{:?} {:?} {:?}", game, lang, p);
             match no_panic(|| localizer(game).localize(p, &lang)) {
@@ -65,6 +67,44 @@ mod __verif_native_fs {
         walk(dir, dir, &mut out); out
     }
     fn put(dir: &Path, rel: &str, bytes: &[u8]) { let p = dir.join(rel); std::fs::create_dir_all(p.parent().unwrap()).unwrap(); std::fs::write(p, bytes).unwrap(); }
+
+    /// every game x every language: the filesystem built for that pair localizes exactly like the game's localizer
+    /// (same results, same errors, for every language asked of the handed-out localizer), and a localized write lands
+    /// where the marker table says
+    fn check_fs_every_language() {
+        let probe = ["Mess/common.m", "m/GameData.bin", "m", "a/b/c.bin", "", ".."];
+        for game in GAMES { for lang in LANGS {
+            let dir = tempfile::tempdir().unwrap();
+            let fs = match LayeredFilesystem::new(vec![dir.path().to_string_lossy().to_string()], lang, game) { Ok(fs) => fs,
+                Err(e) => { check(false, "C14.filesystem_applies_the_same_mapping", || format!("{:?} {:?}: new -> {:?}", game, lang, e)); continue; } };
+            let show = |s: &str| format!("{:?} filesystem built for {:?}: {}", game, lang, s);
+            for l in LANGS { for p in probe {
+                let via_fs = no_panic(|| fs.localizer().localize(p, &l).map_err(|e| format!("{:?}", e)));
+                let direct = no_panic(|| localizer(game).localize(p, &l).map_err(|e| format!("{:?}", e)));
+                check(via_fs == direct, "C14.filesystem_applies_the_same_mapping", || show(&format!("localizer().localize({:?}, {:?}) = {:?}, the game's localizer gives {:?}", p, l, via_fs, direct)));
+            } }
+            for p in ["Mess/common.m", "m/x.bin"] {
+                match expected(game, lang, p) {
+                    Some(on_disk) => {
+                        let w = no_panic(|| fs.write(p, b"localized", true));
+                        if check(matches!(w, Ok(Ok(()))), "C14.filesystem_applies_the_same_mapping", || show(&format!("localized write of {} -> {:?}", p, w.as_ref().map(|r| r.as_ref().map_err(|e| format!("{:?}", e)))))) {
+                            check(std::fs::read(dir.path().join(&on_disk)).ok().as_deref() == Some(&b"localized"[..]), "C14.filesystem_applies_the_same_mapping", || show(&format!("{} expected on disk at {}", p, on_disk)));
+                            check(fs.read(p, true).ok().as_deref() == Some(&b"localized"[..]), "C14.localized_write_and_existence_check_address_the_same_location", || show(p));
+                            check(fs.file_exists(p, true).unwrap_or(false) && fs.exists(p, true).unwrap_or(false), "C14.localized_write_and_existence_check_address_the_same_location", || show(p));
+                        }
+                    }
+                    None => {
+                        let w = no_panic(|| fs.write(p, b"localized", true));
+                        check(matches!(w, Ok(Err(_))), "C14.unsupported_pair_is_reported", || show(&format!("localized write of {} for an unsupported language must fail", p)));
+                    }
+                }
+            }
+            for p in ["", ".."] {
+                let r = no_panic(|| fs.read(p, true).map(|_| ()));
+                check(matches!(r, Ok(Err(_))), "C14.path_without_final_component_is_an_error", || show(&format!("localized read of {:?}", p)));
+            }
+        } }
+    }
 
     fn check_fs() {
         for game in GAMES {
@@ -204,6 +244,7 @@ mod __verif_native_fs {
     fn run() {
         check_localize();
         check_fs();
+        check_fs_every_language();
         finish("native_fs");
     }
 }
